@@ -97,7 +97,7 @@ EXCLUDE: dict = {
     "C11-right-join-on-true-to-cross": lambda sql, feats: "RIGHT JOIN" in sql and " ON 1 = 1" in sql,
     "C11-cross-join-limit-1-eliminated": lambda sql, feats: "CROSS JOIN" in sql and " LIMIT 1)" in sql,
     # planner sorts first and then applies DISTINCT as an aggregation that re-sorts by the projected values
-    "C11-distinct-discards-order": lambda sql, feats: "distinct" in feats and "order-by" in feats,
+    "C11-distinct-discards-order": lambda sql, feats: "distinct" in feats and ("order-by" in feats or "nested-limit" in feats),
 }
 
 
